@@ -205,6 +205,7 @@ def run(tier='quick'):
                   floor=5)
     from . import c11
     c11.forest_encodings(prog, cg, eff, chk, T8, only=('root', 'sub', 'move'), paths=False)
+    moved_subtree_closure(prog, cg, eff, chk, T8)
     return chk.finish('value-flow interpretation of the structural crate queries and mutators of both '
                       'implementations down to the parsed SQL (tables, key columns bound to the handle id, '
                       'returned columns, event order of reads / validator calls / throws / writes)')
@@ -343,6 +344,32 @@ def parent_is_live(prog, cg, eff, chk, T12):
                               'and is in no children() / root_crates() listing' % (
                                   inst, 'no read of the crate table keyed by the argument\'s id' if not probes
                                   else 'no throw depends on that read'))
+
+
+def moved_subtree_closure(prog, cg, eff, chk, T8):
+    """1.x: the closure table lists every (ancestor, descendant) pair.  Re-parenting a crate changes
+    the ancestors of the crate *and of all its descendants*: set_parent must rewrite the closure
+    rows whose crateIdChild is a descendant of the moved crate, i.e. issue writes on the closure table
+    keyed by values it read from the closure relation of id()."""
+    qn = V1 + 'engine_crate_impl::set_parent'
+    for f, ip, ret in evaluate(prog, cg, eff, qn):
+        chk.analysed(f)
+        hw = [w for w in ip.writes if (w.table or '').lower() in ('cratehierarchy', 'listhierarchy')]
+        if not hw:
+            chk.unknown(T8, _short(qn) + ' closure', 'no write on the closure table reached')
+            continue
+        sub = [w for w in hw if any(any(x[0] == 'loc' and (x[1] or '').lower() in ('cratehierarchy', 'listhierarchy')
+                                        for x in vf.leaves(v)) for v in list((w.where or {}).values()) + [w.value])
+               and not all(_is_handle_id(v) for v in (w.where or {}).values())]
+        inst = '%s: the closure rows of the moved crate\'s descendants are rewritten' % _short(qn)
+        if sub:
+            chk.ok(T8, inst, sub[0].loc)
+        else:
+            chk.violation(T8, '%s|descendants keep their old ancestors' % _short(qn), hw[0].loc,
+                          '%s: not so - set_parent deletes and inserts only the rows whose crateIdChild is the moved '
+                          'crate itself: its sub-crates stay descendants of the old ancestors and do not become '
+                          'descendants of the new ones, so descendants() is wrong and the cycle guard, which reads '
+                          'this table, accepts a parent that is in fact a descendant' % inst)
 
 
 def cycle_guard(prog, cg, eff, chk, T2, spec=None):
